@@ -66,6 +66,15 @@ def build_harness(profile='debug', features=''):
         return rc, out
 
 
+def build_harness_ta():
+    """secondary configuration of C02: the crate's tininess-after-rounding feature, separate target directory"""
+    with Lock('cargo_ta.lock'):
+        return sh('timeout 1500 cargo build --offline --features tiny_after --target-dir target_ta 2>&1', cwd=HARNESS)
+
+
+RUNNER_BIN_TA = os.path.join(HARNESS, 'target_ta', 'debug', 'verif-harness')
+
+
 def build_coq():
     with Lock('coq.lock'):
         if not os.path.exists(os.path.join(COQ, 'Makefile')) or os.path.getmtime(os.path.join(COQ, 'Makefile')) < os.path.getmtime(os.path.join(COQ, '_CoqProject')):
@@ -394,6 +403,9 @@ def run_check(pid, tier, seed):
     # 2. proof obligations of this property
     nthm, nok, axioms, problems, cmd = check_props(pid, scratch) if coq_ok else (0, 0, [], ['coq build failed'], '')
     checker_cmds.append(cmd)
+    for xp in spec.get('extra_props', []) if coq_ok else []:
+        n2, ok2, ax2, pr2, cmd2 = check_props(xp, scratch)
+        nthm += n2; nok += ok2; axioms = sorted(set(axioms) | set(ax2)); problems += pr2; checker_cmds.append(cmd2)
     obligations.append(('props/%s.v: %d theorems + Print Assumptions allow-list + forbidden-vernacular scan' % (pid, nthm), not problems, '; '.join(problems)))
     n_obl_thm = max(nthm, 1)
 
@@ -458,8 +470,15 @@ def run_check(pid, tier, seed):
     streams_info = []; xsample = []
     if harness_ok and drv_ok:
         rng_master = random.Random(seed)
-        for (sname, genf, nq, nt) in spec['streams']:
+        for st_ in spec['streams']:
+            (sname, genf, nq, nt) = st_[:4]; sopts = st_[4] if len(st_) > 4 else {}
             n = nq if tier == 'quick' else nt
+            rbin = RUNNER_BIN
+            if sopts.get('bin') == 'ta':
+                rc_, out_ = build_harness_ta()
+                obligations.append(('harness builds against /repo with the crate feature decimal_tiny_detection_after_rounding', rc_ == 0, '' if rc_ == 0 else out_[-1500:]))
+                if rc_ != 0: continue
+                rbin = RUNNER_BIN_TA
             rng = random.Random(rng_master.getrandbits(64))
             ts = time.time()
             lines = list(genf(rng, n))
@@ -469,7 +488,7 @@ def run_check(pid, tier, seed):
                     o2, v2, s2 = run_cases_panic_only(lines, scratch, RUNNER_BIN.replace('/debug/', '/release/'), sname + '_rel')
                     verdicts += v2; s.update(s2)
             else:
-                outs, verdicts, s = run_cases(lines, scratch, tag=sname)
+                outs, verdicts, s = run_cases(lines, scratch, runner_bin=rbin, tag=sname)
             summ.update(s)
             evaluations += s['total']
             streams_info.append(dict(stream=sname, cases=len(lines), ok=s['ok'], reject=s['reject'], panic=s['panic'], unknown=s['unknown'], known_class=s['known'], secs=round(time.time() - ts, 1)))
